@@ -5,3 +5,4 @@ for p in $(python3 -c "import json;print(' '.join(c['property_id'] for c in json
   out=$(./qv check $p 2>&1); rc=$?
   echo "$(echo "$out" | tail -1)  rc=$rc known=$(echo "$out" | grep -c '^KNOWN-FINDING')"
 done
+# every line must end with rc=0
